@@ -125,6 +125,13 @@ int main() {
   // the held estimate did not move: a second tick gives the same answer
   StateAndVariance r1b = mf.tick(0.23 CTL_ARG);
   printf("nothing_held %.3g\n", maxdiff(r1, r1b));
+  // a filter living at times well above 1 s, moved by whole steps plus a microsecond remainder, forwards and backwards
+  MF far(5000.0, s0 CAL_ARG);
+  StateAndVariance f1 = far.tick(5000.0 + 2 * cpp::Config::max_dt_sec + 3e-6 CTL_ARG);
+  printf("large_time_forward %.3g\n", maxdiff(f1, move(5000.0, 5000.0 + 2 * cpp::Config::max_dt_sec + 3e-6, s0)) * 1e3);
+  MF far2(86400.25, s0 CAL_ARG);
+  StateAndVariance f2 = far2.tick(86400.25 - cpp::Config::max_dt_sec - 5e-7 CTL_ARG);
+  printf("large_time_backward %.3g\n", maxdiff(f2, move(86400.25, 86400.25 - cpp::Config::max_dt_sec - 5e-7, s0)) * 1e3);
   READINGS
   return 0;
 }
@@ -194,7 +201,7 @@ def matrix_build(item):
         seen.add(k)
         if not float(v) <= 1e-9:
             problems.append(f"{k}: tick result differs from the hand-made call sequence by {v}")
-    want = {"noreadings", "nothing_held"} | ({"readings", "held_at_last_reading"} if has_sens else set())
+    want = {"noreadings", "nothing_held", "large_time_forward", "large_time_backward"} | ({"readings", "held_at_last_reading"} if has_sens else set())
     if out.returncode != 0 or want - seen:
         problems.append(f"driver failed (exit {out.returncode}, missing {sorted(want - seen)}): {out.stderr[-300:]}")
     return args, problems
